@@ -548,7 +548,12 @@ SNAP* SessionKeys::ccmp_decrypt_unicast(const Dot11Data& dot11, RawPDU& raw) con
         offset += block_sz;
     }
     if (equal(nice_MIC, nice_MIC + sizeof(nice_MIC), MIC)) {
-        return new SNAP(&pload[0], total_sz);
+        try {
+            return new SNAP(&pload[0], total_sz);
+        }
+        catch (exception_base&) {
+            return 0;
+        }
     }
     else {
         return 0;
@@ -572,7 +577,12 @@ SNAP* SessionKeys::tkip_decrypt_unicast(const Dot11Data& dot11, RawPDU& raw) con
         return 0;
     }
 
-    return new SNAP(&pload[0], pload.size() - 20);
+    try {
+        return new SNAP(&pload[0], pload.size() - 20);
+    }
+    catch (exception_base&) {
+        return 0;
+    }
 }
 
 SNAP* SessionKeys::decrypt_unicast(const Dot11Data& dot11, RawPDU& raw) const {
